@@ -237,9 +237,7 @@ TravFilter(d, x, segs, i) ==
       belowErr == \E j \in 1..Len(below) : below[j].err # ""
   IN IF direct.err # "" \/ belowErr THEN YPErr
      ELSE [err |-> "", dead |-> FALSE, res |-> (IF Len(direct.res) > 0 THEN <<Cur(x)>> ELSE <<>>) \o Flatten([j \in 1..Len(below) |-> below[j].res]),
-           info |-> direct.info \/ (\E j \in 1..Len(below) : below[j].info)
-                    \* a position whose next segment matches more than once: multiplicity is code only
-                    \/ Len(direct.res) > 1]
+           info |-> direct.info \/ (\E j \in 1..Len(below) : below[j].info)]
 
 TraverseStep(d, c, segs, i) ==
   IF IsVirt(c) THEN NoneInfo
